@@ -21,7 +21,7 @@ RULE = ("server streams as in C15 (redefinition, partial updates, kind mismatche
         "callbacks that were invoked; distinct = hash(stream, callback configuration)")
 ASSUMPTIONS = ["no order among the events of one message is demanded", "for BLOB values only 'changed => event' is demanded",
                "a callback registered while an event is being dispatched may or may not receive that event"]
-REQUIRED_EVENTS = ["streams", "events_raised", "callback_invocations_checked", "callbacks_removed_between_messages",
+REQUIRED_EVENTS = ["streams", "events_raised", "callback_invocations_checked", "callbacks_removed_between_messages", "criteria_removals_matching_several",
                    "in_callback_self_removals", "in_callback_removals_of_later", "raising_callbacks_invoked", "coroutine_callbacks_invoked",
                    "chains_checked"]
 
@@ -42,7 +42,7 @@ def gen_callbacks(rng, nmsgs):
             "raises": rng.random() < 0.2,
             "register_at": rng.choice([0, 0, 0, rng.randrange(0, max(1, nmsgs))]),
             "remove_at": None,
-            "remove_how": rng.choice(["uuid", "criteria"]),
+            "remove_how": rng.choice(["uuid", "criteria", "criteria-all", "criteria-all"]),
             "action": None,
         }
         if rng.random() < 0.4:
@@ -117,6 +117,10 @@ async def run_stream(ctx, case):
     def remove(cb, how):
         if how == "uuid":
             client.rmonevent(uuid=uuids[cb["id"]])
+        elif how == "criteria-all" and cb["etype"] != "BaseEvent":
+            # by filter only: removes EVERY callback registered with these filter values (None is a wild card);
+            # the event type is always given and never the base type, so the spy cannot match
+            client.rmonevent(device=cb["device"], vector=cb["vector"], element=cb["element"], event_type=getattr(E, cb["etype"]))
         else:
             client.rmonevent(device=cb["device"], vector=cb["vector"], element=cb["element"], event_type=getattr(E, cb["etype"]),
                              callback=funcs[cb["id"]])
@@ -140,9 +144,9 @@ async def run_stream(ctx, case):
         return [inv[c.uuid] for c in client.callbacks if c.uuid in inv]
 
     ctx.count("streams")
+    bycb = {c["id"]: c for c in cbs}
     model_reg = []        # ordered ids registered according to the model
     model_acted = set()
-    bycb = {c["id"]: c for c in cbs}
     total_events = 0
     invoked = set()
     blob_elements = set()
@@ -157,7 +161,15 @@ async def run_stream(ctx, case):
             if cb["remove_at"] == k and cb["id"] in uuids:
                 remove(cb, cb["remove_how"])
                 ctx.count("callbacks_removed_between_messages")
-                if cb["id"] in model_reg:
+                if cb["remove_how"] == "criteria-all" and cb["etype"] != "BaseEvent":
+                    victims = [cid for cid in model_reg
+                               if all(cb[f] is None or cb[f] == bycb[cid][f] for f in ("device", "vector", "element"))
+                               and bycb[cid]["etype"] == cb["etype"]]
+                    if len(victims) > 1:
+                        ctx.count("criteria_removals_matching_several")
+                    for cid in victims:
+                        model_reg.remove(cid)
+                elif cb["id"] in model_reg:
                     model_reg.remove(cb["id"])
         text = G.write_xml(am, G.spellings(rng, 1)[0])
         view = view_xml(text)
